@@ -356,12 +356,18 @@ def main():
     def privval_hook(val):
         return orig_privval(val)
 
-    def make_alloc_hook(orig):
+    def make_alloc_hook(orig, is_privval=False):
         def hooked(val, *rest, **kw):
             if state["active"] and forge is not None and is_own():
                 k = state["k"]
                 state["k"] += 1
                 if k < len(forge) and forge[k] is not None:
+                    if state.get("wire_only") and is_privval:
+                        # second attempt (the value-forged run tripped a run-time check of the honest side): the
+                        # Python-side value stays honest, only the recorded witness carries the adversary's value
+                        r = orig(val, *rest, **kw)
+                        be.privvals[-1] = int(forge[k])
+                        return r
                     val = int(forge[k])
             return orig(val, *rest, **kw)
         return hooked
@@ -376,7 +382,7 @@ def main():
                     sites.append((sys.modules[mname], fname))
         for owner, fname in sites:
             orig_f = getattr(owner, fname)
-            hooked = make_alloc_hook(orig_f)
+            hooked = make_alloc_hook(orig_f, is_privval=(owner is rt and fname == "PrivVal"))
             for m in list(sys.modules.values()):
                 if m is not None and getattr(m, "__name__", "").startswith("pysnark") and getattr(m, fname, None) is orig_f:
                     setattr(m, fname, hooked)
@@ -551,6 +557,16 @@ def main():
             recH.pop("exc_obj", None)
             out["runs"].append(recH)
             rF, aF, kF, recF = run(True)
+            if recF["outcome"] == "raise" and recH["outcome"] == "return":
+                recF.pop("exc_obj", None)
+                recF["note"] = "forged values on the Python side trip a run-time check; retried with the forged values on the wires only"
+                out["runs"].append(recF)
+                state["wire_only"] = True
+                try:
+                    rF, aF, kF, recF = run(True)
+                finally:
+                    state["wire_only"] = False
+                recF["forged"] = "wires only"
             g.honest_vals = None
             c.honest_value = {}
             if recF["outcome"] == "return" and len(flatten(rF)) == len(hflat):
